@@ -594,7 +594,6 @@ func allSuffix(ps []string, suf string) bool {
 	return true
 }
 
-
 // regroupScansAll: the loop that looks for a lone OR unit examines every member: the only way out of it before
 // the end is the break/return that follows the regroup store itself.
 func regroupScansAll(f *FuncSrc, store *ast.AssignStmt) bool {
